@@ -22,6 +22,21 @@ def calls_to(fn, pred, ctx=None, cut=False):
     return out
 
 
+def as_min(t):
+    """(a, b) when t is `a.min(b)` / `cmp::min(a, b)`, else None. Rules that expect `if a > b { b } else { a }` accept this form too."""
+    t = strip(t)
+    if t[0] == "call" and t[1] in ("std::cmp::Ord::min", "core::cmp::Ord::min", "std::cmp::min", "core::cmp::min") and len(t[2]) == 2:
+        return t[2][0], t[2][1]
+    return None
+
+
+def as_max(t):
+    t = strip(t)
+    if t[0] == "call" and t[1] in ("std::cmp::Ord::max", "core::cmp::Ord::max", "std::cmp::max", "core::cmp::max") and len(t[2]) == 2:
+        return t[2][0], t[2][1]
+    return None
+
+
 def ends(suffix):
     return lambda p: p == suffix or p.endswith("::" + suffix)
 
